@@ -113,6 +113,8 @@ def run_one(m, via_registry, shape, tl, obs, mutate=None):
 
 
 def work(item):
+    from .. import ops as O
+    O.AUTO_TABLE = True
     tl = Tally()
     obs = []
     m = item["modem"]
